@@ -273,7 +273,7 @@ func (sg *snippetGenerator) forLiteralType(attrType cty.Type, nestingLvl int) st
 }
 
 func labelForLiteralValue(val cty.Value, isNested bool) string {
-	if !val.IsWhollyKnown() {
+	if !val.IsWhollyKnown() || val.IsNull() {
 		return ""
 	}
 
